@@ -10,8 +10,8 @@
 //!               "time":{"secs":i64,"year":i64,"rfc2822":str|null,"rfc3339":str}|null},
 //!        "cache":{"calls":[limit|null ..],"on_clone":bool}?}      (Router::cache calls after which everything is observed again)
 //! obs:  {"match":bool, "outs":[{"loc":[..],"hf":[..],"bf":str,"hb":[[value,inner]..],"target":str|null} ..]}
-//!       `outs` = the sorted set of outcomes over every order of the variable list that `Rule::variables` can return
-//!       (a stable sort by name length over a HashMap iteration: equal-length names come in any order); normally one element.
+//!       `outs` = [the outcome] (one element: since repair 96f3afa the variable order is fixed; an always-on oracle, sig
+//!       `nondeterministic`, fails if from_routes_rule / get_target / repeated `variables` calls disagree).
 use redirectionio::action::Action;
 use redirectionio::api::Rule;
 use redirectionio::http::Request;
@@ -194,51 +194,6 @@ fn request_of(case: &Value, config: &RouterConfig) -> Result<Request, String> {
         }
     }
     Ok(request)
-}
-
-/// All orders of `vars` that a stable sort by descending name length can produce from some input order.
-fn orders(vars: &[(String, String)]) -> Vec<Vec<(String, String)>> {
-    let mut sorted = vars.to_vec();
-    sorted.sort_by(|(a, _), (b, _)| b.len().cmp(&a.len()));
-    let mut groups: Vec<Vec<(String, String)>> = Vec::new();
-    for v in sorted {
-        match groups.last_mut() {
-            Some(g) if g[0].0.len() == v.0.len() => g.push(v),
-            _ => groups.push(vec![v]),
-        }
-    }
-    fn perms(g: &[(String, String)]) -> Vec<Vec<(String, String)>> {
-        if g.len() <= 1 {
-            return vec![g.to_vec()];
-        }
-        let mut out = Vec::new();
-        for i in 0..g.len() {
-            let mut rest = g.to_vec();
-            let x = rest.remove(i);
-            for mut p in perms(&rest) {
-                p.insert(0, x.clone());
-                out.push(p);
-            }
-        }
-        out
-    }
-    let mut acc: Vec<Vec<(String, String)>> = vec![vec![]];
-    for g in &groups {
-        let ps = perms(g);
-        let mut next = Vec::new();
-        for a in &acc {
-            for p in &ps {
-                let mut a2 = a.clone();
-                a2.extend(p.iter().cloned());
-                next.push(a2);
-                if next.len() > 5040 {
-                    return next;
-                }
-            }
-        }
-        acc = next;
-    }
-    acc
 }
 
 /// Sort key shared with the driver (plain byte order of the fields joined by control characters).
@@ -574,7 +529,14 @@ fn observe(router: &Router<Rule>, request: &Request, ctx: &Ctx) -> (Value, Optio
     let captured = route.capture(request);
     let vars = route.handler().variables(&captured, request);
     let mut outs: Vec<Value> = Vec::new();
-    let all = if ctx.explicit_vars { vec![vars.clone()] } else { orders(&vars) };
+    // `variables` twice, and once more on the captured map rebuilt in the opposite insertion order: the order must be fixed
+    let vars2 = route.handler().variables(&captured, request);
+    let mut rev: Vec<(&String, &String)> = captured.iter().collect();
+    rev.reverse();
+    let captured_rev: std::collections::HashMap<String, String> = rev.into_iter().map(|(k, v)| (k.clone(), v.clone())).collect();
+    let vars3 = route.handler().variables(&captured_rev, request);
+    let stable_order = vars == vars2 && vars == vars3;
+    let all = vec![vars.clone()];
     for order in &all {
         let t = ctx.target_t.as_ref().map(|t| StaticOrDynamic::replace(t.clone(), order));
         let l: Vec<String> = match &t {
@@ -603,10 +565,10 @@ fn observe(router: &Router<Rule>, request: &Request, ctx: &Ctx) -> (Value, Optio
     let n_out = outs.len();
     let obs = json!({"match": true, "outs": outs});
     if !actual_ok {
-        return (obs, Some((format!("the action's outcome {actual} / get_target {target:?} is not among the outcomes of capture + variables + replace"), "action-not-in-orders")), captured.len());
+        return (obs, Some((format!("from_routes_rule gives {actual}, get_target {target:?}: not the outcome of capture + variables + replace (two calls disagree)"), "nondeterministic")), captured.len());
     }
-    if n_out > 1 {
-        return (obs, Some(("the outcome depends on the HashMap iteration order of the captured markers (equal-length names)".to_string(), "hashmap-order")), captured.len());
+    if n_out > 1 || !stable_order {
+        return (obs, Some(("Rule::variables returned different orders for the same captured markers".to_string(), "nondeterministic")), captured.len());
     }
     (obs, None, captured.len())
 }
